@@ -55,6 +55,7 @@ func (vc *VC) reset() {
 	vc.elemInfo = map[Term]elemInfo{}
 	vc.slicePtr = map[Term]Term{}
 	vc.prov = map[Term]Term{}
+	vc.trusted = map[Term]bool{}
 }
 
 // wf records well-formedness facts of a value of type t existing at state st.
@@ -63,6 +64,9 @@ func (vc *VC) wf(st *State, v Term, t types.Type) {
 	vc.older(st, v, sort)
 	if sort == "Val" && !isTypeParam(t) {
 		vc.sc.Assume(st.reach, Or(Eq(v, "nilval"), sx("vnn", v)))
+	}
+	if sort == "Slice" && isByteSlice(t) {
+		vc.sc.Assume(st.reach, Eq(sx("s-len", v), sx("str.len", sx("bstr", v))))
 	}
 }
 
@@ -89,6 +93,7 @@ func (vc *VC) generateOnce() {
 		name := "p_" + sanitize(p.Name())
 		vc.sc.DeclConst(name, vc.sortOf(p.Type()))
 		vc.wf(st, name, p.Type())
+		vc.trusted[name] = true
 		params = append(params, name)
 	}
 	var fvs []Term
@@ -97,6 +102,7 @@ func (vc *VC) generateOnce() {
 		vc.sc.DeclConst(name, vc.sortOf(f.Type()))
 		vc.wf(st, name, f.Type())
 		vc.sc.Assume("true", Not(Eq(name, "nilref")))
+		vc.trusted[name] = true
 		fvs = append(fvs, name)
 	}
 	vc.entry = st.clone()
